@@ -144,10 +144,14 @@ func hashString(m map[string]string) string {
 // pre-state and compares outcome class and hashes (pure hash equality: no
 // model is involved in this verdict). It leaves the tree in the post-state.
 func (h *handler) multiRun(root string, restore func() error, label string, replay any) (projgen.GenOutcome, map[string]string, bool) {
+	return h.multiRunV(h.variants, root, restore, label, replay)
+}
+
+func (h *handler) multiRunV(variants []variant, root string, restore func() error, label string, replay any) (projgen.GenOutcome, map[string]string, bool) {
 	var first projgen.GenOutcome
 	var firstH map[string]string
 	ok := true
-	for vi, v := range h.variants {
+	for vi, v := range variants {
 		if vi > 0 {
 			if err := restore(); err != nil {
 				h.addInfra("restore: " + err.Error())
@@ -173,12 +177,12 @@ func (h *handler) multiRun(root string, restore func() error, label string, repl
 			continue
 		}
 		if out.Class != first.Class {
-			h.c.Violate("C18:outcome-depends-on-run-parameters", fmt.Sprintf("%s\nrun [%s] ended %s, run [%s] ended %s\n%s", label, h.variants[0], first.Class, v, out.Class, tail(out.Stderr, 800)), replay)
+			h.c.Violate("C18:outcome-depends-on-run-parameters", fmt.Sprintf("%s\nrun [%s] ended %s, run [%s] ended %s\n%s", label, variants[0], first.Class, v, out.Class, tail(out.Stderr, 800)), replay)
 			ok = false
 			continue
 		}
 		if d := projgen.DiffHashes(firstH, hs); len(d) > 0 {
-			h.c.Violate("C18:nondeterministic-output:"+kindOf(d), fmt.Sprintf("%s\nthe same Generate step, run as separate processes from the same tree, wrote different bytes:\n  run A: %s\n  run B: %s\n  differing files: %v", label, h.variants[0], v, d), replay)
+			h.c.Violate("C18:nondeterministic-output:"+kindOf(d), fmt.Sprintf("%s\nthe same Generate step, run as separate processes from the same tree, wrote different bytes:\n  run A: %s\n  run B: %s\n  differing files: %v", label, variants[0], v, d), replay)
 			ok = false
 		}
 	}
@@ -366,6 +370,199 @@ func tail(s string, n int) string {
 
 // ---- part B: feature-rich schemas ------------------------------------------------
 
+// ---- part C: object cycles under the non-default values of the options that steer modelgen / codegen ----
+
+const cycleSDL = `type Query {
+  order(id: ID!): Order
+  orders(filter: OrderFilter): [Order!]!
+  node: Node!
+  ring: RingA!
+  search: [Hit!]!
+  shapes: [Shape]
+}
+
+# 2-cycle with two edges one way, all non-null
+type Order {
+  id: ID!
+  buyer: Customer!
+  payer: Customer!
+  status: OrderStatus!
+  lines: [Line!]!
+}
+type Customer {
+  id: ID!
+  lastOrder: Order!
+  tier: Tier
+  friends: [Customer]
+}
+type Line {
+  order: Order!
+  qty: Int!
+  price: Float
+}
+
+# 3-cycle of non-null fields
+type RingA { b: RingB! name: String }
+type RingB { c: RingC! name: String }
+type RingC { a: RingA! name: String }
+
+# self-reference directly and through a list
+type Node implements Shape {
+  id: ID!
+  parent: Node
+  self: Node!
+  children: [Node!]!
+  matrix: [[Node]]
+}
+
+interface Shape { id: ID! }
+interface Named { name: String }
+interface Priced implements Named { name: String price: Float! }
+type Circle implements Shape { id: ID! r: Float! }
+type Box implements Shape & Named { id: ID! name: String owner: Customer! }
+type Item implements Priced & Named { name: String price: Float! order: Order! }
+union Hit = Order | Customer | Node | Item | Circle
+
+enum OrderStatus { NEW PAID SHIPPED CANCELLED }
+enum Tier { BRONZE SILVER GOLD }
+enum Axis { X Y Z }
+
+# cycle through input types
+input OrderFilter {
+  and: [OrderFilter!]
+  not: OrderFilter
+  range: RangeIn!
+  status: [OrderStatus!] = [NEW, PAID]
+  axis: Axis = X
+}
+input RangeIn {
+  min: Int = 0
+  max: Int
+  filter: OrderFilter
+  opts: RangeOpts = {inclusive: true, step: 2, label: "d"}
+}
+input RangeOpts { inclusive: Boolean step: Int label: String }
+
+type Mutation {
+  place(in: OrderFilter!, r: RangeIn): Order!
+}
+`
+
+type cycleCfg struct {
+	name string
+	opts map[string]bool
+	exec string // single | follow
+}
+
+func cycleYAML(cc cycleCfg) string {
+	var sb strings.Builder
+	sb.WriteString("schema: [\"*.graphqls\"]\n")
+	if cc.exec == "follow" {
+		sb.WriteString("exec:\n  layout: follow-schema\n  dir: graph\n  package: graph\n")
+	} else {
+		sb.WriteString("exec:\n  filename: graph/generated.go\n  package: graph\n")
+	}
+	sb.WriteString("model:\n  filename: graph/model/models_gen.go\n  package: model\n")
+	sb.WriteString("resolver:\n  layout: follow-schema\n  dir: graph\n  package: graph\n")
+	sb.WriteString("skip_mod_tidy: true\nskip_validation: true\nomit_gqlgen_version_in_file_notice: true\n")
+	ks := make([]string, 0, len(cc.opts))
+	for k := range cc.opts {
+		ks = append(ks, k)
+	}
+	sort.Strings(ks)
+	for _, k := range ks {
+		fmt.Fprintf(&sb, "%s: %v\n", k, cc.opts[k])
+	}
+	return sb.String()
+}
+
+// the non-default value of every boolean option that influences modelgen / codegen decisions
+var cycleOpts = []struct {
+	k string
+	v bool
+}{
+	{"struct_fields_always_pointers", false}, {"omit_slice_element_pointers", true}, {"resolvers_always_return_pointers", false},
+	{"nullable_input_omittable", true}, {"omit_getters", true}, {"enable_model_json_omitempty_tag", false},
+	{"enable_model_json_omitzero_tag", true}, {"return_pointers_in_unmarshalinput", true}, {"omit_root_models", true},
+	{"omit_resolver_fields", true}, {"omit_complexity", true},
+}
+
+// cycleSchemas: one schema with non-null object cycles of several shapes (2-cycle with two edges one
+// way, 3-cycle, self-reference directly / through lists, cycle through input types), generated under
+// the non-default value of each option (struct_fields_always_pointers: false always among them),
+// nproc separate processes per configuration; verdict = hash equality of every generated file. The
+// output need not compile (the 3-cycle under struct_fields_always_pointers: false is C17's finding).
+func (h *handler) cycleSchemas(seed int64, nproc int, thorough bool) int {
+	cfgs := []cycleCfg{
+		{"sfap_false", map[string]bool{"struct_fields_always_pointers": false}, "single"},
+	}
+	all := map[string]bool{}
+	for _, o := range cycleOpts {
+		all[o.k] = o.v
+	}
+	cfgs = append(cfgs, cycleCfg{"all_nondefault", all, "follow"})
+	// every single non-default option (thorough), a seeded pair of them (quick)
+	rest := cycleOpts[1:]
+	if thorough {
+		for _, o := range rest {
+			cfgs = append(cfgs, cycleCfg{o.k, map[string]bool{o.k: o.v}, "single"})
+			cfgs = append(cfgs, cycleCfg{"sfap_false+" + o.k, map[string]bool{"struct_fields_always_pointers": false, o.k: o.v}, "follow"})
+		}
+	} else {
+		i := int(uint64(seed) % uint64(len(rest)))
+		j := int((uint64(seed)*7 + 3) % uint64(len(rest)))
+		cfgs = append(cfgs, cycleCfg{"sfap_false+" + rest[i].k, map[string]bool{"struct_fields_always_pointers": false, rest[i].k: rest[i].v}, "follow"})
+		cfgs = append(cfgs, cycleCfg{rest[j].k, map[string]bool{rest[j].k: rest[j].v}, "single"})
+	}
+	var variants []variant
+	procs := []int{1, 4, 16, 2, 8, 3, 6, 12, 5, 7, 9, 10}
+	for i := 0; i < nproc; i++ {
+		variants = append(variants, variant{procs[i%len(procs)], []string{".", "graph", "graph/model"}[i%3], i%2 == 1})
+	}
+	projgen.Parallel(len(cfgs), 2, func(i int) {
+		cc := cfgs[i]
+		name := fmt.Sprintf("c18_cyc%d", i)
+		root := projgen.GenRoot(name)
+		_ = os.RemoveAll(root)
+		defer os.RemoveAll(root)
+		if err := os.MkdirAll(filepath.Join(root, "graph", "model"), 0o755); err != nil {
+			h.addInfra(err.Error())
+			return
+		}
+		_ = os.WriteFile(filepath.Join(root, "gqlgen.yml"), []byte(cycleYAML(cc)), 0o644)
+		_ = os.WriteFile(filepath.Join(root, "cycles.graphqls"), []byte(cycleSDL), 0o644)
+		label := fmt.Sprintf("cycle schema under %s (exec layout %s)", cc.name, cc.exec)
+		replay := map[string]any{"schema": "cycleSDL (harness/cmd/c18/main.go)", "gqlgen.yml": cycleYAML(cc)}
+		h.c.AddEvals(1)
+		h.c.Class("cycles:" + cc.name)
+		g0 := projgen.RunGen(root, projgen.GenOpts{Explicit: true})
+		atomic.AddInt64(&h.runs, 1)
+		if !g0.OK() {
+			if g0.Class == "timeout" || g0.Class == "crash" {
+				h.addInfra("generator " + g0.Class)
+			} else {
+				h.addInfra(fmt.Sprintf("cycle schema is not generable under %s: %s", cc.name, tail(g0.Stderr, 600)))
+			}
+			return
+		}
+		snap := projgen.NewConc(root, "", 0, nil, nil)
+		pre, err := snap.Snapshot()
+		if err != nil {
+			h.addInfra(err.Error())
+			return
+		}
+		h0, _ := projgen.HashTree(root, isGo)
+		first, hs, ok := h.multiRunV(variants, root, func() error { return snap.Restore(pre) }, label, replay)
+		if !ok || !first.OK() {
+			return
+		}
+		if d := projgen.DiffHashes(h0, hs); len(d) > 0 {
+			h.c.Violate("C18:second-run-changes-files:"+kindOf(d), fmt.Sprintf("%s\nrunning Generate again on the freshly generated tree, nothing edited, changed: %v", label, d), replay)
+		}
+	})
+	return len(cfgs)
+}
+
 func (h *handler) richSchemas(n int, seed int64) {
 	rows := projgen.C17FixedRows()
 	if len(rows) == 0 {
@@ -523,7 +720,11 @@ func main() {
 
 	var wg sync.WaitGroup
 	wg.Add(1)
-	go func() { defer wg.Done(); h.richSchemas(nRich, seed) }()
+	nCyc, nCycProc := 0, 6
+	if thorough {
+		nCycProc = 10
+	}
+	go func() { defer wg.Done(); h.richSchemas(nRich, seed); nCyc = h.cycleSchemas(seed, nCycProc, thorough) }()
 	rep := &projgen.Replayer{G: g, H: h, Name: "c18", Seed: seed * 104729, Pairs: pairs, Files: []string{"a", "b"}, Workers: 3}
 	rep.Run(tries)
 	wg.Wait()
@@ -552,7 +753,7 @@ func main() {
 	c.AddStates(mc.Distinct, mc.Generated)
 	c.AddTraces(int64(n))
 	c.Set("rule", "seeded sample of Generate edges of the Project.tla state graph (all four layout combinations) reached by their BFS-shortest histories, plus feature-rich schemas from the C17 renderer; each Generate step = one evaluation, executed in several processes (GOMAXPROCS, start directory, clean / previous-output tree varied; verdict = hash equality) and once more with nothing edited (verdict = TLC evaluates the postcondition Idempotent of the intended design on the observed pre/post states, plus byte equality of generated files); a class = (layouts, kind of edits since last run, deviations) or a feature row")
-	c.Set("processes", map[string]any{"generator_processes": h.runs + rep.Stats.Inits, "variants_per_step": len(h.variants), "second_run_probes": h.probes, "second_runs_accepted": accepted, "second_runs_violating": violating, "impl_level_drift": drift, "tour_model_deviations": curDevs, "second_runs_dropping_only_warning_block": h.warnOnly, "rich_schemas": nRich})
+	c.Set("processes", map[string]any{"generator_processes": h.runs + rep.Stats.Inits, "variants_per_step": len(h.variants), "second_run_probes": h.probes, "second_runs_accepted": accepted, "second_runs_violating": violating, "impl_level_drift": drift, "tour_model_deviations": curDevs, "second_runs_dropping_only_warning_block": h.warnOnly, "rich_schemas": nRich, "cycle_schema_configurations": nCyc, "processes_per_cycle_configuration": nCycProc + 1})
 	c.Set("gen_function_conflicts", h.genConfl)
 	c.Assume("map-order nondeterminism is probabilistic: a missing sort over k >= 3 keys escapes one comparison of two processes with probability <= 1/k!; the number of process starts is reported")
 	c.Assume("idempotence is demanded for every file except that the trailing WARNING block of a resolver file is, by gqlgen's design and by the C19 statement, the content of the last run only: a second run removes it (spec/Project.tla Idempotent)")
